@@ -389,6 +389,13 @@ func RuleG4(c *Ctx) {
 						if _, isLocal := x.Addr.(*ssa.Alloc); isLocal {
 							return
 						}
+						// the one-element argument array of an append: the value joins a local list (in arrival order);
+						// what consumes the list is derived from it and judged like any other consumer
+						if ia, isIA := x.Addr.(*ssa.IndexAddr); isIA {
+							if al, isAl := ia.X.(*ssa.Alloc); isAl && al.Comment == "varargs" {
+								return
+							}
+						}
 						// first assignment: dominated by the nil edge of a test of the same slot
 						slot := core.PathOf(x.Addr)
 						first := false
